@@ -127,7 +127,7 @@ def crit_config(cfg, target_names, crit):
 
 
 def run_frame(pose, ests, gts, targets, policy, crit, pf_thresholds, task="detection", metrics=None, frame_name="0",
-              unix_time=0, previous=None, match_radii=None, derive_from=None):
+              unix_time=0, previous=None, match_radii=None, derive_from=None, pf_reversed=False):
     """matching + PerceptionFrameResult.evaluate_frame on a rendered scene, as the manager does.
     `derive_from`: an earlier FrameGroundTruth that is deep-copied and given this frame's pose and objects (what the
     interpolation code does with a key frame), so that its transform registry is *reused*."""
@@ -148,8 +148,9 @@ def run_frame(pose, ests, gts, targets, policy, crit, pf_thresholds, task="detec
                                     transforms=gtf.transforms)
     mcfg = MetricsScoreConfig(cfg.evaluation_task, target_labels=targets,
                               **(metrics or {"center_distance_thresholds": [[1.0] * len(targets)]}))
+    pf_names, pf_thr = (names[::-1], list(pf_thresholds)[::-1]) if pf_reversed else (names, list(pf_thresholds))
     fr = PerceptionFrameResult(results, gtf, mcfg, crit_config(cfg, names, crit),
-                               PerceptionPassFailConfig(cfg, names, matching_threshold_list=list(pf_thresholds)),
+                               PerceptionPassFailConfig(cfg, pf_names, matching_threshold_list=pf_thr),
                                unix_time, targets)
     fr.evaluate_frame(previous_result=previous)
     return fr, results
